@@ -44,13 +44,13 @@ inductive Out (α : Type)
   | ok (a : α) (rest : Bytes)
   | err (e : Err)
   | panic
-  deriving Repr
+  deriving Repr, DecidableEq
 
 structure Res (α : Type) where
   alloc : Nat
   out : Out α
 
-def Dec (α : Type) := Bytes → Res α
+abbrev Dec (α : Type) := Bytes → Res α
 
 namespace Dec
 def pure {α} (a : α) : Dec α := fun bs => ⟨0, .ok a bs⟩
@@ -79,10 +79,13 @@ def readByte : Dec UInt8 := fun bs =>
   | [] => ⟨0, .err .eof⟩
   | b :: r => ⟨0, .ok b r⟩
 
-/-- `binary.PutUvarint` -/
-def putUvarint (n : Nat) : Bytes :=
-  if h : n < 128 then [UInt8.ofNat n] else UInt8.ofNat (n % 128 + 128) :: putUvarint (n / 128)
-decreasing_by omega
+/-- `binary.PutUvarint` (at most 10 bytes for a `uint64`); structural on the fuel so that
+    `decide` can evaluate it -/
+def putUvarintF : (fuel : Nat) → Nat → Bytes
+  | 0, n => [UInt8.ofNat n]
+  | f + 1, n => if n < 128 then [UInt8.ofNat n] else UInt8.ofNat (n % 128 + 128) :: putUvarintF f (n / 128)
+
+def putUvarint (n : Nat) : Bytes := putUvarintF 9 n
 
 /-- `binary.ReadUvarint`: at most 10 bytes; `fuel = 10 - i`. Non-minimal encodings are accepted. -/
 def uvarintGo : (fuel : Nat) → (x s : Nat) → Bytes → Out Nat
@@ -108,13 +111,16 @@ def readVarint63 : Dec Nat := do
   let v ← readUvarint
   if v > max63 then fail .range else pure v
 
+/-- the slice step of `ReadVarstr31` after the length `l` is known -/
+def takeStr (l : Nat) : Dec Bytes := fun bs =>
+  if l = 0 then ⟨0, .ok [] bs⟩
+  else if l > bs.length then ⟨0, .err .unexpectedEOF⟩
+  else ⟨0, .ok (bs.take l) (bs.drop l)⟩
+
 /-- `ReadVarstr31`: a sub-slice of the buffer (no allocation) -/
 def readVarstr31 : Dec Bytes := do
   let l ← readVarint31
-  fun bs =>
-    if l = 0 then ⟨0, .ok [] bs⟩
-    else if l > bs.length then ⟨0, .err .unexpectedEOF⟩
-    else ⟨0, .ok (bs.take l) (bs.drop l)⟩
+  takeStr l
 
 /-- size charged per appended slice header / pointer -/
 def aSlice : Nat := 24
@@ -141,14 +147,17 @@ def readVarstrList : Dec (List Bytes) := do
   let n ← readVarint31
   if n = 0 then pure [] else readStrs n n 0
 
+/-- run `f` on the sub-reader `s`; the outer reader is untouched -/
+def runInner {α} (f : Dec α) (s : Bytes) : Dec (α × Bytes) := fun bs =>
+  match f s with
+  | ⟨k, .ok a rest⟩ => ⟨k, .ok (a, rest) bs⟩
+  | ⟨k, .err e⟩ => ⟨k, .err e⟩
+  | ⟨k, .panic⟩ => ⟨k, .panic⟩
+
 /-- `ReadExtensibleString`: read a varstr, run `f` on it, return `f`'s value and the unconsumed suffix -/
 def readExt {α} (f : Dec α) : Dec (α × Bytes) := do
   let s ← readVarstr31
-  fun bs =>
-    match f s with
-    | ⟨k, .ok a rest⟩ => ⟨k, .ok (a, rest) bs⟩
-    | ⟨k, .err e⟩ => ⟨k, .err e⟩
-    | ⟨k, .panic⟩ => ⟨k, .panic⟩
+  runInner f s
 
 /-- `Hash.ReadFrom` / `AssetID.ReadFrom`: `io.ReadFull` of 32 bytes -/
 def readHash : Dec Bytes := fun bs =>
@@ -318,13 +327,15 @@ def TypedOutput.tag : TypedOutput → UInt8
   | .original => 0
   | .vote _ => 1
 
-def encOutput (o : TxOutput) : Bytes :=
-  putUvarint o.assetVersion ++ [o.typed.tag] ++
-  encExt (encTypedOutput o.typed ++
+/-- the bytes inside an output's commitment extensible string (without the suffix) -/
+def encOutBody (o : TxOutput) : Bytes :=
+  encTypedOutput o.typed ++
     (match o.commitment with
      | some oc => if o.assetVersion = 1 then encOC oc else []
-     | none => [])) o.commitmentSuffix ++
-  encVarstr []
+     | none => [])
+
+def encOutput (o : TxOutput) : Bytes :=
+  putUvarint o.assetVersion ++ [o.typed.tag] ++ encExt (encOutBody o) o.commitmentSuffix ++ encVarstr []
 
 def encTx (H : Bytes → Bytes) (tx : TxData) : Bytes :=
   [7] ++ putUvarint tx.version ++ putUvarint tx.timeRange ++
@@ -441,22 +452,25 @@ def decOC : Dec OutputCommitment := do
   let st ← readVarstrList
   pure ⟨asset, amount, vm, prog, st⟩
 
+/-- the closure `TxOutput.readFrom` passes to `ReadExtensibleString` -/
+def decOutBody (t : UInt8) (av : Nat) : Dec (TypedOutput × Option OutputCommitment) := do
+  let typed ← (if t = 1 then do
+      let v ← readVarstr31
+      pure (TypedOutput.vote v)
+    else (pure TypedOutput.original : Dec TypedOutput))
+  let oc ← (if av = 1 then do
+      let oc ← decOC
+      pure (some oc)
+    else (pure none : Dec (Option OutputCommitment)))
+  pure (typed, oc)
+
 /-- `TxOutput.readFrom` -/
 def decOutput : Dec TxOutput := do
   let av ← readVarint63
   let t ← readByte
   if t ≠ 0 ∧ t ≠ 1 then fail .outputType else do
   tick 32
-  let ((typed, oc), cs) ← readExt (do
-    let typed ← (if t = 1 then do
-        let v ← readVarstr31
-        pure (TypedOutput.vote v)
-      else (pure TypedOutput.original : Dec TypedOutput))
-    let oc ← (if av = 1 then do
-        let oc ← decOC
-        pure (some oc)
-      else (pure none : Dec (Option OutputCommitment)))
-    pure (typed, oc))
+  let ((typed, oc), cs) ← readExt (decOutBody t av)
   let _ ← readVarstr31
   pure ⟨av, oc, cs, typed⟩
 
